@@ -605,13 +605,17 @@ protected:
 
 	// HELPER methods
 
+	// a 64-bit integer has up to 64 significant bits: keep all of them. The two 32-bit halves convert exactly;
+	// their sum is renormalised with an (exact) fast two-sum, |upper| >= |lower| or upper == 0
 	constexpr dd& convert_signed(int64_t v) noexcept {
 		if (0 == v) {
 			setzero();
 		}
 		else {
-			hi = static_cast<double>(v);
-			lo = 0.0;
+			const double upper = static_cast<double>(v >> 32) * 4294967296.0; // floor(v / 2^32) * 2^32
+			const double lower = static_cast<double>(static_cast<uint32_t>(v));
+			hi = upper + lower;
+			lo = lower - (hi - upper);
 		}
 		return *this;
 	}
@@ -621,8 +625,10 @@ protected:
 			setzero();
 		}
 		else {
-			hi = static_cast<double>(v);
-			lo = 0.0;
+			const double upper = static_cast<double>(v >> 32) * 4294967296.0;
+			const double lower = static_cast<double>(static_cast<uint32_t>(v));
+			hi = upper + lower;
+			lo = lower - (hi - upper);
 		}
 		return *this;
 	}
